@@ -1,11 +1,13 @@
 """C01 - matrix-vector products equal the mathematical product in every storage format.
 
 Inputs on which the *property* fails on the unchanged tree (genuine FEAT defects, reproduced with the real containers
-at Q; /repo is not changed). The random generator avoids the open ones; F1 and F8 are executed and judged on every run in the
-second stream "known-edge" (signatures c01-edge:F1 / F8, open entries of KNOWN_FINDINGS.json -> KNOWN-FINDING
+at Q; /repo is not changed). The random generator avoids the open ones; F8 is executed and judged on every run in the
+second stream "known-edge" (signature c01-edge:F8, open entries of KNOWN_FINDINGS.json -> KNOWN-FINDING
 lines; once fixed in FEAT the cases simply pass):
 
- F1  `dense apply 0 0 0 1/1 0 0 0`  (default-constructed 0x0 DenseMatrix, r and x empty; same for axpy / transposed and
+ F1  (FIXED in /repo by 2dc37e78b = proposed_fix_F1.diff: `if (r.size() == Index(0)) return;` after the size assertions;
+     inputs now in the corpus, the model follows the fixed code, theorem C01.empty_result_is_identity)
+     `dense apply 0 0 0 1/1 0 0 0`  (default-constructed 0x0 DenseMatrix, r and x empty; same for axpy / transposed and
      for a default-constructed SparseMatrixBanded): ABORT "Vector x and r must not share the same memory!" - the aliasing
      assertion r.elements() != x.elements() compares two null pointers before any early-out.  Expected: returns the
      empty vector, like CSR/CSCR/BCSR (`csr 64 apply 0 0 1 0 0 0 1/1 0 0 0` -> `R 0 U1`).
@@ -270,8 +272,10 @@ def gen_case(rng, sizes):
         nr, nx = (cols, rows) if tr else (rows, cols)
         t = tail(rng, nx, nr, op.startswith("axpy")) if op != "dense" else "0/1 0 0 0"
         return "banded %d %s %d %d %s %s %s" % (it, op, rows, cols, nl(off), fl(val), t)
-    # ----- dense (a DenseMatrix with a zero dimension cannot be constructed; 0x0: FINDINGS_C01.md F1)
+    # ----- dense (a DenseMatrix with exactly one zero dimension cannot be constructed; 0x0 is the default-constructed one)
     rows, cols = rdim(rng, sizes, allow0=False), rdim(rng, sizes, allow0=False)
+    if rng.random() < 0.04:
+        rows = cols = 0                 # the default-constructed empty matrix
     op = pick_op(rng)
     val = [rval(rng) for _ in range(rows * cols)]
     tr = op.endswith("T")
@@ -431,6 +435,18 @@ def gen_cases(rng, count, sizes):
 
 
 CORPUS = [
+    # former finding F1 (fixed in /repo by 2dc37e78b): empty result vector (0x0 dense / banded, banded n x 0 transposed)
+    "dense apply 0 0 0 1/1 0 0 0",
+    "dense applyT 0 0 0 1/1 0 0 0",
+    "dense axpy 0 0 0 1/1 0 0 0",
+    "dense axpyT 0 0 0 1/1 0 0 0",
+    "banded 64 apply 0 0 0 0 1/1 0 0 0",
+    "banded 64 applyT 0 0 0 0 1/1 0 0 0",
+    "banded 64 axpy 0 0 0 0 1/1 0 0 0",
+    "banded 64 axpyT 0 0 0 0 1/1 0 0 0",
+    "dense axpy 0 0 0 2/1 0 0 1",
+    "banded 64 applyT 3 0 2 0 1 6 1/1 2/1 3/1 4/1 5/1 6/1 1/1 3 1/1 1/1 1/1 0 0",
+    "banded 64 axpyT 3 0 2 0 1 6 1/1 2/1 3/1 4/1 5/1 6/1 2/1 3 1/1 1/1 1/1 0 0",
     # former finding F7 (fixed in /repo by f4bb574b6): flat 4-argument PowerRowMatrix::apply_transposed
     "meta prow3_csr axpyTF R csr 2 1 3 0 1 1 1 0 1 2/1 R csr 2 1 3 0 0 0 0 0 csr 2 1 3 0 0 0 0 0 1/1 2 1/1 1/1 3 0/1 0/1 0/1 0",
     "meta pfull_w3h2_csr applyTF C R csr 3 2 4 0 0 0 0 0 0 R csr 3 1 4 0 1 1 1 1 0 1 1/1 csr 3 1 4 0 0 0 0 0 0 R csr 2 2 3 0 1 1 1 1 1 -2/1 R csr 2 1 3 0 0 0 0 0 csr 2 1 3 0 0 0 0 0 1/1 5 2/1 -5/3 4/1 0/1 7/3 0 0",
@@ -699,7 +715,7 @@ def oracle(case, out):
                     if v != c.m.get((i, j), Fraction(0)):
                         return "operator()(%d,%d) = %s, stored arrays say %s" % (i, j, v, c.m.get((i, j), Fraction(0)))
             return None
-        if c.fmt == "banded" and c.tr and out == "ABORT:not-offered":
+        if c.fmt == "banded" and c.tr and out == "ABORT:not-offered" and c.pcol > 0:
             return None     # the banded format does not offer the transposed product ("not implemented")
         if is_abnormal(out):
             return "%s %s on a valid input ended with %s" % (c.fmt, c.op, out)
@@ -757,7 +773,7 @@ def oracle_fl(case, out):
     except Exception as e:
         return "unparsable case (%s)" % e
     try:
-        if c.fmt == "banded" and c.tr and out.startswith("ABORT"):
+        if c.fmt == "banded" and c.tr and out.startswith("ABORT") and c.pcol > 0:
             return None
         if is_abnormal(out):
             return "%s %s at %s ended with %s" % (c.fmt, c.op, case[:3], out)
@@ -864,15 +880,8 @@ def canon(out):
     return "ABORT" if out.startswith("ABORT") else out
 
 
-# known-edge stream: the exact failing inputs of the findings F1 / F2, judged by the same oracle on every run
+# known-edge stream: the exact failing inputs of the open finding F8, judged by the same oracle on every run
 EDGE = {}
-for _op in ("apply", "applyT", "axpy", "axpyT"):
-    EDGE["dense %s 0 0 0 1/1 0 0 0" % _op] = "c01-edge:F1"
-    EDGE["banded 64 %s 0 0 0 0 1/1 0 0 0" % _op] = "c01-edge:F1"
-EDGE["dense axpy 0 0 0 2/1 0 0 1"] = "c01-edge:F1"                       # r aliasing y
-
-
-
 EDGE["meta pdiag2_csr applyTF D csr 2 0 3 0 0 0 0 0 csr 2 2 3 0 0 0 0 0 1/1 4 2/7 -3/1 -5/3 0/1 0 0"] = "c01-edge:F8"
 EDGE["meta saddle_csr applyF S csr 2 2 3 0 2 2 2 1 0 2 -4/1 3/7 csr 2 0 3 0 0 0 0 0 csr 1 2 2 0 2 2 0 1 2 -9/7 4/3 "
      "1/1 2 -3/1 -1/1 0 0"] = "c01-edge:F8"
@@ -883,9 +892,9 @@ def edge_signature(case, out, why):
 
 
 def edge_model_filter(case):
-    # the Lean model reproduces F1 (Dense.apply / Banded.apply return none for two empty vectors);
+    # the Lean model does not contain the size > 0 assertion of the range constructor (F8);
     # it does not model the std::out_of_range of F2
-    return EDGE.get(case) == "c01-edge:F1"
+    return False
 
 
 def signature(case, out, why):
@@ -940,8 +949,7 @@ def main(argv):
         "exact rational arithmetic at Q in the main stream; stream f64-nan-prefill re-runs the leaf formats at double with "
         "NaN-pre-filled r under the a-priori bound gamma_{n+8}(|alpha||A||x|+|y|) (gamma of C01.fl_rowloop_gamma), stream "
         "f32-nan-prefill the same at float; meta-matrices and blocked vectors are not re-run in floating point",
-        "DenseMatrix / SparseMatrixBanded 0x0 and the BCSR mixed overload with an empty y are not generated randomly; "
-        "their exact failing inputs, and those of the flat meta-matrix overloads (F7, F8), are executed and judged in "
-        "stream known-edge (KNOWN_FINDINGS c01-edge:F1/F7/F8)"],
+        "flat meta-matrix overloads with an empty block (open finding F8) are not generated randomly; their exact failing "
+        "inputs are executed and judged in stream known-edge (KNOWN_FINDINGS c01-edge:F8)"],
         extra_cov={"rule": stats_rule})
     return rc
